@@ -175,6 +175,49 @@ fn compare_selectors(c: Country, public: &Files, school: &Files, thorough: bool,
     }
 }
 
+/// PH with day offsets and PH inside weekday lists see the same dates (quick: every fifth country)
+fn compare_selector_variants(c: Country, public: &Files, out: &mut Out) {
+    let code = c.iso_code();
+    let empty = BTreeSet::new();
+    let file = public.get(code).unwrap_or(&empty);
+    let (Some(first), Some(last)) = (file.iter().next(), file.iter().next_back()) else { return };
+    let from = first.pred_opt().unwrap().pred_opt().unwrap().and_hms_opt(0, 0, 0).unwrap();
+    let to = last.succ_opt().unwrap().succ_opt().unwrap().succ_opt().unwrap().and_hms_opt(0, 0, 0).unwrap();
+    let span_days = || {
+        let mut v = Vec::new();
+        let mut d = from.date();
+        while d < to.date() {
+            v.push(d);
+            d = d.succ_opt().unwrap();
+        }
+        v
+    };
+    let shifted = |k: i64| -> BTreeSet<NaiveDate> { file.iter().map(|d| *d + chrono::TimeDelta::days(k)).filter(|d| *d >= from.date() && *d < to.date()).collect() };
+    let cases: Vec<(&str, BTreeSet<NaiveDate>)> = vec![
+        ("PH +1 day", shifted(1)),
+        ("PH -1 day", shifted(-1)),
+        ("PH,Su", span_days().into_iter().filter(|d| file.contains(d) || d.weekday() == chrono::Weekday::Sun).collect()),
+    ];
+    for (expr, want) in cases {
+        let oh = OpeningHours::parse(expr).expect("parses").with_context(Context::default().with_holidays(c.holidays()));
+        let mut open_days: BTreeSet<NaiveDate> = BTreeSet::new();
+        for r in oh.iter_range(from, to) {
+            out.checks += 1;
+            if r.kind == RuleKind::Open {
+                let mut d = r.range.start.date();
+                while d.and_hms_opt(0, 0, 0).unwrap() < r.range.end {
+                    open_days.insert(d);
+                    d = d.succ_opt().unwrap();
+                }
+            }
+        }
+        if open_days != want {
+            let a: Vec<_> = open_days.symmetric_difference(&want).take(3).collect();
+            out.bad(format!("{code}: the interval stream of `{expr}` is open on {} days, the file implies {}; differing e.g. {a:?}", open_days.len(), want.len()));
+        }
+    }
+}
+
 fn compare_codes(public: &Files, school: &Files, out: &mut Out) {
     let all: Vec<Country> = Country::ALL.to_vec();
     let codes: BTreeSet<&str> = all.iter().map(|c| c.iso_code()).collect();
@@ -262,6 +305,11 @@ fn compare_codes(public: &Files, school: &Files, out: &mut Out) {
             format!(" {c}"), format!("{c} "), c.to_lowercase(), format!("{c}\0"), format!("{c}{c}"), format!("\u{feff}{c}"),
             format!("{c}A"), format!("{c}\n"), format!("{c}\u{200b}"), format!("{c}-"), format!("{c}-XX"), format!("{c}_{c}"), format!("{c};"), full_width,
             format!("{}{}", &c[..1], &c[1..].to_lowercase()), format!("{}.{}", &c[..1], &c[1..]),
+            // letters of other scripts whose code points end in the same byte as the code's letters
+            c.chars().map(|ch| char::from_u32(0x100 + ch as u32).unwrap_or(ch)).collect::<String>(),
+            c.chars().map(|ch| char::from_u32(0x400 + ch as u32).unwrap_or(ch)).collect::<String>(),
+            c.chars().map(|ch| char::from_u32(0x1E00 + ch as u32).unwrap_or(ch)).collect::<String>(),
+            format!("{}{}", &c[..1], char::from_u32(0x100 + c.as_bytes()[1] as u32).unwrap_or('x')),
         ] {
             out.checks += 1;
             if near.parse::<Country>().is_ok() {
@@ -307,7 +355,9 @@ fn compare_repeats_and_coords(public: &Files, school: &Files, out: &mut Out) {
         }
     }
     // a country inferred from coordinates gets that country's calendars
-    for (lat, lon, code) in [(48.8566, 2.3522, "FR"), (52.52, 13.405, "DE"), (40.7128, -74.006, "US"), (35.6762, 139.6503, "JP"), (-33.8688, 151.2093, "AU"), (51.5074, -0.1278, "GB"), (-23.5505, -46.6333, "BR"), (55.6761, 12.5683, "DK"), (19.4326, -99.1332, "MX"), (-26.2041, 28.0473, "ZA"), (64.1466, -21.9426, "IS"), (52.3676, 4.9041, "NL")] {
+    for (lat, lon, code) in [(48.8566, 2.3522, "FR"), (52.52, 13.405, "DE"), (40.7128, -74.006, "US"), (35.6762, 139.6503, "JP"), (-33.8688, 151.2093, "AU"), (51.5074, -0.1278, "GB"), (-23.5505, -46.6333, "BR"), (55.6761, 12.5683, "DK"), (19.4326, -99.1332, "MX"), (-26.2041, 28.0473, "ZA"), (64.1466, -21.9426, "IS"), (52.3676, 4.9041, "NL"),
+        // supported countries that the boundaries table nests inside a bigger region
+        (60.0973, 19.9348, "AX"), (18.4655, -66.1057, "PR"), (64.1814, -51.6941, "GL"), (62.0079, -6.79, "FO"), (22.3193, 114.1694, "HK"), (36.1408, -5.3536, "GI"), (49.1868, -2.1062, "JE"), (49.4555, -2.5368, "GG"), (54.1523, -4.4861, "IM"), (78.2232, 15.6267, "SJ")] {
         out.checks += 1;
         let Some(co) = Coordinates::new(lat, lon) else { continue };
         let ctx = Context::from_coords(co);
@@ -369,8 +419,11 @@ fn schedule(name: &str, public: &Files, school: &Files, thorough: bool) -> (u64,
             for c in order(name) {
                 compare_country(c, public, school, thorough, &mut out);
             }
-            for c in order(name) {
+            for (i, c) in order(name).into_iter().enumerate() {
                 compare_selectors(c, public, school, thorough, &mut out);
+                if thorough || i % 5 == 0 {
+                    compare_selector_variants(c, public, &mut out);
+                }
             }
             compare_codes(public, school, &mut out);
             if name == "S1_first_country_first" {
